@@ -376,6 +376,23 @@ ROUND9 = {
 for _k, _v in ROUND9.items():
     CLAIMED[_k]["text"] = CLAIMED[_k]["text"] + " " + _v
 
+# sentences added in the tenth round of seeding
+ROUND10 = {
+    "C01": "The stage the producers/subjects partition measures 'same stage' from is derived from the component itself, never from the controller's state.",
+    "C05": "The previous instance of a loop-carried producer is named from the iteration number alone (the format is not the fallback of a lookup).",
+    "C06": "A helper whose result keys the table of known environments puts the printed form of the values into the key (1 == True must not merge environments).",
+    "C07": "instance() stores a component's variables with every component-level layer of get_component_variables on (the override's variables included).",
+    "C08": "A component definition that enters the description (constructor pipeline, add_component, update_component) derives from a deep copy on every path (two repaired defects).",
+    "C09": "application_dependency_to_name removes the trailing extension only (a cut at the last dot, never at the first).",
+    "C13": "The cutoff of the new-output test is not a clock value read after the task generator returned.",
+    "C15": "dsl.py never uses the position of a key in a mapping field of the document; sorted() around a generator counts as a canonical enumeration.",
+    "C16": "The container image enters the hashed information whole: no element of split/partition, slice or group of it.",
+    "C18": "A folder copy creates its destination (copytree without dirs_exist_ok, no merging copy_tree).",
+    "C19": "Run-time directories inside the glob patterns of dosini.py go through glob.escape (repaired defect); branch keys of parse_component are read through local key lists.",
+}
+for _k, _v in ROUND10.items():
+    CLAIMED[_k]["text"] = CLAIMED[_k]["text"] + " " + _v
+
 
 def main():
     checks = []
